@@ -14,7 +14,7 @@ from tools.vlib import Outcome, sx
 from tools.props import c08_common as C
 
 MANIFEST = {
-    "level_text": "Coq theorems (Properties/C17.v, no axioms) about the run/cache state machine of Model/C08Run.v (writes in the order types.ts, commands.ts, [events.ts], index.ts, [dependency-graph.txt, .dot], record last; a failing record write is a warning), faithful instance: for every state, discovery order and position k of the failing write, a non-forced run that reaches the writes reports Failure when a file of the plan cannot be written, leaves the record untouched and exactly the first k files written; when only the record cannot be written it reports Success with all files in place and no record; afterwards the record never vouches for the current inputs; the next non-forced run regenerates everything and records the current fingerprint; a run that changes the record has written every file first. Tied to /repo by injecting write faults at open time (EISDIR, unusable output path) and after a successful open (file pre-created as a symbolic link to /dev/full; RLIMIT_FSIZE 0, which leaves a truncated file - modelled as a step of its own) into first runs, runs after hashed edits and runs over a matching record after a lost file, through every entry point that generates - `generate`, the `init` subcommand, BuildSystem::generate_at_build_time (all compared step by step with the extracted model) and generate_from_config (no record; judged by the oracle and the write plan) - for small and > 8 KiB contents, followed by recovery runs.",
+    "level_text": "Coq theorems (Properties/C17.v, no axioms) about the run/cache state machine of Model/C08Run.v (writes in the order types.ts, commands.ts, [events.ts], index.ts, [dependency-graph.txt, .dot], record last; a failing record write is a warning), faithful instance: for every state, discovery order and position k of the failing write, a non-forced run that reaches the writes reports Failure when a file of the plan cannot be written, leaves the record untouched and exactly the first k files written; when only the record cannot be written it reports Success with all files in place and no record; afterwards the record never vouches for the current inputs; the next non-forced run regenerates everything and records the current fingerprint; a run that changes the record has written every file first. Tied to /repo by injecting write faults at open time (EISDIR, unusable output path) and after a successful open (file pre-created as a symbolic link to /dev/full; RLIMIT_FSIZE 0 - the failed write leaves no file behind since the repair C17-1) into first runs, runs after hashed edits and runs over a matching record after a lost file, through every entry point that generates - `generate`, the `init` subcommand, BuildSystem::generate_at_build_time (all compared step by step with the extracted model) and generate_from_config (no record; judged by the oracle and the write plan) - for small and > 8 KiB contents, followed by recovery runs.",
     "design_ref": "DESIGN.md section 5 C08, C14, C17; section 11 fault_recovery",
     "level_note": "Faults are whole-write failures (EISDIR, ENOTDIR/EEXIST on the output path): a crash or short write in the middle of one fs::write is not exercised and appears in the model only as 'the k-th write fails'; the history [run; edit; failing run; revert the edit; run] (an edit between fault and recovery) ends up to date over mixed files on the model and is outside the property's quantifier; a failing write of .typecache alone is reported as success with a warning (exit 0), which the check accepts because no binding is missing and no record is kept; recovery is claimed for orders with the same fingerprint (single-file projects in the check).",
     "technique": "Rocq/Coq proof over hand-written model + correspondence check (extracted OCaml vs real binary and Rust driver)"
@@ -39,6 +39,13 @@ def start_desc(case):
     d["cfg"]["visualize_deps"] = bool(case.get("viz"))
     if case.get("no_events"):
         d["files"][0]["events"] = []
+    if case.get("kind") == "fsize_graph":
+        # dependency-graph.txt prints the file path of every command: a long file name makes it the largest output,
+        # so a file size limit between the two lets every binding through and cuts the graph
+        d["files"][0]["path"] = "m" + "x" * 150 + ".rs"
+        for i in range(12):
+            d["files"][0]["commands"].append({"name": "c%d" % i, "async": False, "rename_all": None, "params": [],
+                                              "ret": "String", "channels": []})
     if case.get("large"):
         # types.ts and commands.ts well above the 8 KiB of a default BufWriter (index.ts and events.ts stay small)
         for i in range(70):
@@ -130,7 +137,10 @@ def run_fault(case):
             os.remove(w.out(case["lost"]))
             steps.append(["delete", C.model_file_name(case["lost"])])
         kind = case.get("kind", "dir")
-        if kind == "fsize":
+        if kind == "fsize_graph":
+            t = "dependency-graph.txt"
+            k, binding = plan.index(t), True
+        elif kind == "fsize":
             # no obstacle in the directory: the process runs with RLIMIT_FSIZE = 0, every write after an open fails
             # (EFBIG); the first write of the plan is the one that fails, and File::create has truncated the file
             t = plan[0]
@@ -151,17 +161,18 @@ def run_fault(case):
                     "record_matches": matches, "rewritten": r["rewritten"], "text": r["text"][-300:]}
         # ---- the faulty run(s)
         before_files = set(n for n, v in w.stat().items() if v != "dir")
-        rf = w.run(fsize0=(kind == "fsize"))
+        rf = w.run(fsize0={"fsize": True, "fsize_graph": 6}.get(kind, False))
         steps.append(["run", sched, False, C.opt(k)])
         obs["fault"] = state(rf)
         obs["record_matched_before"] = None
-        if kind == "fsize":
+        if kind in ("fsize", "fsize_graph"):
             # what the failed write left: an empty file (the model records the truncation as a step of its own)
-            truncated = rf["decision"] == "failed" and os.path.isfile(w.out(t)) and os.path.getsize(w.out(t)) == 0
+            truncated = rf["decision"] == "failed" and os.path.isfile(w.out(t)) and \
+                w.files().get(t) != ref["files"].get(t)
             obs["fault"]["truncated"] = truncated
             obs["fault"]["existed_before"] = t in before_files
-            if truncated:
-                steps.append(["corrupt", C.model_file_name(t)])
+            # since the repair C17-1 nothing may be left under that name; an empty file here is the old behaviour and is
+            # not mirrored in the model, so it shows as a disagreement and, after the recovery run, as a violation
         if case.get("second"):
             remove_obstacle(w, t)
             t = case["second"]
@@ -171,7 +182,7 @@ def run_fault(case):
             obs["fault2"] = state(rf2)
             obs["binding2"] = binding2
         # ---- remove the obstacle, recover
-        if kind != "fsize":
+        if kind not in ("fsize", "fsize_graph"):
             remove_obstacle(w, t)
         r1 = w.run()
         steps.append(["run", sched, False, None])
@@ -218,32 +229,28 @@ def eval_fault(cases):
         q.append(sx([o["binding"], dec(f["decision"]), f["vouches"], not f["missing"] and not f["different"],
                      dec(r["decision"]), not r["missing"] and not r["different"], r["record_as_fresh"]]))
     orc = vlib.run_runner("c17-oracle", q)
-    # class C17-1 (extracted predicate): the failing write truncated its file while the record matched the inputs
-    kfs = vlib.run_runner("c17-kf", [sx([bool(o["fault"].get("truncated")), bool(o["fault"]["record_matches"])]) for _, o, _ in res])
+    recq = []
+    for _, o, _ in res:
+        for key in ("fault", "fault2"):
+            if key in o:
+                recq.append(sx([dec(o[key]["decision"]), C.CACHE in o[key]["rewritten"]]))
+    rec_it = iter(vlib.run_runner("c17-record", recq))
     outs = []
     for case, (_, o, desc), t, ok_s in zip(cases, res, tr, orc):
+        rec_ok = all(next(rec_it) == "true" for key in ("fault", "fault2") if key in o)
         two = "fault2" in o
         runs = t[-4:] if two else t[-3:]
         mf, mr, mr2 = runs[0], runs[-2], runs[-1]
         f, r = o["fault"], o["recovery"]
         f_missing = set(C.model_file_name(n) for n in f["missing"])
         f_diff = set(C.model_file_name(n) for n in f["different"])
-        trunc = bool(f.get("truncated"))
-        if trunc:
-            # the model's observation of the faulty run precedes its truncation step: the empty file counts as missing there
-            tn = C.model_file_name(o["target"])
-            f_diff.discard(tn)
-            if not f.get("existed_before"):
-                f_missing.add(tn)
         corr = (f["decision"] == mf[0] and f_missing == set(mf[1]) and f_diff <= set(mf[2])
-                and (trunc or f["vouches"] == (mf[4] == "true"))
+                and f["vouches"] == (mf[4] == "true")
                 and r["decision"] == mr[0] and set(C.model_file_name(n) for n in r["missing"]) == set(mr[1])
                 and set(C.model_file_name(n) for n in r["different"]) <= set(mr[2])
                 and o["recovery2"]["decision"] == mr2[0])
-        ok = ok_s == "true" and o["recovery2"]["decision"] == "up_to_date"
+        ok = ok_s == "true" and rec_ok and o["recovery2"]["decision"] == "up_to_date"
         kf = None
-        if not ok and kfs[len(outs)] == "true":
-            kf = "C17-1"
         if two:
             f2, m2 = o["fault2"], runs[1]
             corr = corr and f2["decision"] == m2[0] and sorted(C.model_file_name(n) for n in f2["missing"]) == sorted(m2[1]) \
@@ -303,6 +310,14 @@ def fault_cases(tier, rng):
                                   "kind": "fsize", "large": large})
             for lost in ("types.ts", "index.ts", "events.ts", "commands.ts"):
                 cases.append({"entry": entry, "mode": mode, "viz": False, "target": "types.ts", "timing": "after_loss", "kind": "fsize", "lost": lost})
+            # a limit that lets the bindings through and cuts dependency-graph.txt
+            if mode == "none":
+                cases.append({"entry": entry, "mode": mode, "viz": True, "target": "dependency-graph.txt", "timing": "first", "kind": "fsize_graph"})
+                cases.append({"entry": entry, "mode": mode, "viz": True, "target": "dependency-graph.txt", "timing": "after_edit",
+                              "edit": "cmd_add", "kind": "fsize_graph"})
+                for lost in ("dependency-graph.txt", "index.ts"):
+                    cases.append({"entry": entry, "mode": mode, "viz": True, "target": "dependency-graph.txt", "timing": "after_loss",
+                                  "kind": "fsize_graph", "lost": lost})
             # a project without events: events.ts is not in the plan, the obstacle is harmless
             cases.append({"entry": entry, "mode": mode, "viz": False, "target": "events.ts", "timing": "first", "no_events": True})
     # the init subcommand runs a generation too (flags only: library, visualize_deps); every fault kind
